@@ -6,8 +6,11 @@
    revert / metadata requests (dry runs, idempotency keys, references included), any interleaving of their lock,
    balance-read, tx-id, chaining, batch hand-off and completion steps, any batch composition and persistence
    latency, store failures and crashes at every point, and cancellation of any request's context at any point
-   ([ACancel]; a request parked in the wait for its account locks may then give up: [AResumeCancelled]). *)
-From FL Require Import Engine.Model Engine.Spec Engine.E4Base Engine.E4Inv Engine.E4Steps Engine.E4Resume Engine.E4Cor Engine.E4Cancel.
+   ([ACancel]; a request parked in the wait for its account locks may then give up: [AResumeCancelled]), and a
+   transient failure of any store read of the write path ([AResumeReadFail]: transaction / key / reference lookups,
+   account metadata read by the compilation, the balance read under the account locks). *)
+From FL Require Import Engine.Model Engine.Spec Engine.E4Base Engine.E4Inv Engine.E4Steps Engine.E4Resume Engine.E4Cor Engine.E4Cancel
+  Engine.E4ReadFail.
 Open Scope Z_scope.
 
 (* the committed history is serially valid: replaying the persisted log in order, every entry [e] satisfies
@@ -63,6 +66,26 @@ Print Assumptions C02_cancelled_grant_is_released.
 Theorem C02_queue_invariant : forall s, reachable s -> e4_QInv s.
 Proof. exact e4_reachable_qinv. Qed.
 Print Assumptions C02_queue_invariant.
+
+(* ---- transient failures of the store reads of the write path ------------------------------------------------- *)
+(* the balance read under the account locks fails (thread parked at [PLocked]): the request gives its locks back, no
+   lock-table entry of [t] remains (uses [e4_QInv]: a thread at [PLocked] is not queued, and the FIFO pass that
+   follows the release only grants queued intents) *)
+Theorem C02_read_failed_lock_is_released : forall s t s' th,
+  reachable s -> get_thread (threads s) t = Some th -> t_pc th = PLocked ->
+  step s (AResumeReadFail t) = Some s' ->
+  forall h, In h (v_locks s') -> fst (fst h) <> t.
+Proof. exact e4_read_failed_lock_is_released. Qed.
+Print Assumptions C02_read_failed_lock_is_released.
+
+(* a read that fails anywhere else (before the locker: transaction / key / reference lookup, compilation) leaves the
+   lock table and the queue as they were *)
+Theorem C02_read_failed_before_lock_touches_no_lock : forall s t s' th,
+  reachable s -> get_thread (threads s) t = Some th -> t_pc th <> PLocked ->
+  step s (AResumeReadFail t) = Some s' ->
+  v_locks s' = v_locks s /\ v_queue s' = v_queue s.
+Proof. exact e4_read_failed_before_lock_touches_no_lock. Qed.
+Print Assumptions C02_read_failed_before_lock_touches_no_lock.
 
 (* ---- before the repair ------------------------------------------------------------------------------------ *)
 (* [e4_resume_early] is [resume] with the account locks given back at the step that follows the grant
@@ -145,3 +168,45 @@ Example C02_cancel_race_other_branch :
   | None => false
   end = true.
 Proof. exact e4_cancel_granted_other_branch. Qed.
+
+(* the race with a failed balance read: 1 locks, 2 queues; the balance read of 1 fails ([AResumeReadFail 1]): 1
+   answers [RErr EStoreRead], its release grants 2 (flag + the only table entry, queue empty, disk unchanged); 2
+   reads 100 and commits: disk = funding + one transfer (none owned by 1), serially valid, alice = 0, lock table,
+   queue and batcher empty *)
+Example C02_read_failure_race :
+  match run init e4_readfail_pre, run init (e4_readfail_pre ++ [AResumeReadFail 1%nat]), run init e4_readfail_acts with
+  | Some s0, Some s1, Some s =>
+      match e4_pc_of s0 1%nat, e4_pc_of s0 2%nat with Some PLocked, Some PEnqueued => true | _, _ => false end &&
+      match v_locks s0 with [(1%nat, _, _)] => true | _ => false end &&
+      match v_queue s0 with [2%nat] => true | _ => false end &&
+      match e4_resp s1 1%nat with Some (RErr EStoreRead) => true | _ => false end &&
+      match v_locks s1 with [(2%nat, _, _)] => true | _ => false end && e4_nil (v_queue s1) &&
+      match get_thread (threads s1) 2%nat with Some th => t_granted th | None => false end &&
+      Nat.eqb (length (persisted s1)) 1 &&
+      e4_sv_b (persisted s) && Nat.eqb (length (persisted s)) 2 &&
+      (balance_of (persisted s) e4_alice =? 0) &&
+      forallb (fun e => negb (Nat.eqb (e_owner e) 1)) (persisted s) &&
+      e4_nil (v_locks s) && e4_nil (v_queue s) && e4_nil (v_pending s) &&
+      match v_batch s with None => true | Some _ => false end &&
+      match e4_resp s 1%nat, e4_resp s 2%nat with
+      | Some (RErr EStoreRead), Some (ROk (Some 1%nat)) => true
+      | _, _ => false
+      end
+  | _, _, _ => false
+  end = true.
+Proof. exact e4_readfail_check. Qed.
+
+(* reads that fail before the locker (key lookup at [PIkTaken], reference lookup at [PRefTaken]) of a spender with a
+   key and a reference: [RErr EStoreRead], key and reference free again, lock table and queue untouched *)
+Example C02_read_failure_before_lock :
+  match run init (e4_fund ++ [AStart 2%nat e4_spend_kr; AResumeReadFail 2%nat]),
+        run init (e4_fund ++ [AStart 2%nat e4_spend_kr; AResume 2%nat; AResume 2%nat; AResumeReadFail 2%nat]) with
+  | Some s1, Some s2 =>
+      match e4_resp s1 2%nat, e4_resp s2 2%nat with
+      | Some (RErr EStoreRead), Some (RErr EStoreRead) => true | _, _ => false end &&
+      e4_nil (v_iks s1) && e4_nil (v_refs s1) && e4_nil (v_locks s1) && e4_nil (v_queue s1) &&
+      e4_nil (v_iks s2) && e4_nil (v_refs s2) && e4_nil (v_locks s2) && e4_nil (v_queue s2) &&
+      Nat.eqb (length (persisted s1)) 1 && Nat.eqb (length (persisted s2)) 1
+  | _, _ => false
+  end = true.
+Proof. exact e4_readfail_prelock_check. Qed.
